@@ -41,7 +41,7 @@ REQUIRED_THEOREMS = [
     "setGhost_writes_exactly_face", "setGhost_valid_unchanged", "setGhostAll_frame", "setGhostAll_written",
     "setGhostAll_perm", "holdsAt_of_fixed", "setGhostAll_fixed", "setGhostAll_holds", "setGhostAll_dirichlet",
     "setGhostAll_robin", "setGhostAll_normal_untouched",
-    "parse_most_specific_wins", "unknown_key_ignored", "lowHigh_is_pair", "seq_is_pair", "lowHigh_incomplete_is_error",
+    "parse_most_specific_wins", "unknown_key_ignored", "lowHigh_is_pair", "seq_is_pair", "formats_agree", "lowHigh_incomplete_is_error",
     "seq_wrong_length_is_error", "unspecified_is_error", "unspecified_side_is_error", "auto_periodic_resolves",
     "periodicity_consistent", "parse_periodicity_consistent", "parse_length", "alias_table_classes",
 ]
